@@ -485,37 +485,37 @@ theorem graph_ok_of_edges (n : Nat) (es : List (Nat × Nat)) (g : SimpleG)
 /-- the generator's own parameter check accepts exactly these parameters … -/
 theorem pitfall_check_iff (v d ny nz k : Int) :
     Pitfall.check v d ny nz k = .ok () ↔
-      1 ≤ v ∧ 1 ≤ d ∧ 1 ≤ ny ∧ 2 ≤ nz ∧ 1 ≤ k ∧ k % 2 = 0 ∧ d ≤ v ∧ v * d % 2 ≠ 1 :=
+      1 ≤ v ∧ 1 ≤ d ∧ 1 ≤ ny ∧ 2 ≤ nz ∧ 1 ≤ k ∧ k % 2 = 0 ∧ d < v ∧ v * d % 2 ≠ 1 :=
   FamPitfall.check_iff v d ny nz k
 
-/-- … and answers everything else (odd `k`, `nz < 2`, `d > v`, odd `v·d`, non-positive values) with
+/-- … and answers everything else (odd `k`, `nz < 2`, `d ≥ v`, odd `v·d`, non-positive values) with
 `ValueError` -/
 theorem pitfall_check_ok_or_valueError (v d ny nz k : Int) :
     Pitfall.check v d ny nz k = .ok () ∨ Pitfall.check v d ny nz k = .error .valueError :=
   FamPitfall.check_ok_or_valueError v d ny nz k
 
-/-- "parameters for which no `d`-regular graph on `v` vertices can be drawn raise `ValueError`" -/
+/-- accepted parameters admit a `d`-regular graph on `v` vertices (`d < v`, `v·d` even), i.e. satisfy the
+precondition of the third-party generator: no networkx exception can escape (D41, fixed) -/
+theorem pitfall_accepted_is_drawable (v d ny nz k : Int) (h : Pitfall.check v d ny nz k = .ok ()) :
+    d < v ∧ v * d % 2 = 0 ∧ Pitfall.drawable v d = true := by
+  obtain ⟨_, h2, _, _, _, _, h7, h8⟩ := (FamPitfall.check_iff v d ny nz k).1 h
+  have h0 : v * d % 2 = 0 := by have := Int.emod_two_eq (v * d); omega
+  refine ⟨h7, h0, ?_⟩
+  simp only [Pitfall.drawable, decide_eq_true_eq]
+  exact ⟨by omega, h7, h0⟩
+
+/-- "parameters for which no `d`-regular graph on `v` vertices exists raise `ValueError`" -/
 def UndrawableRaisesValueError : Prop :=
   ∀ v d ny nz k : Int, Pitfall.drawable v d = false → Pitfall.check v d ny nz k = .error .valueError
 
-/-- finding D30: false for `d = v` — the check lets `pitfall 2 2 2 2 2` through and networkx raises its own
-`NetworkXError` -/
-theorem undrawable_raises_valueError_false : ¬ UndrawableRaisesValueError := by
-  intro h
-  have := h 2 2 2 2 2 (by decide)
-  exact absurd this (by decide)
-
-theorem undrawable_raises_valueError_partial (v d ny nz k : Int) (hdv : d ≠ v)
-    (h : Pitfall.drawable v d = false) : Pitfall.check v d ny nz k = .error .valueError := by
+theorem undrawable_raises_valueError : UndrawableRaisesValueError := by
+  intro v d ny nz k h
   rcases FamPitfall.check_ok_or_valueError v d ny nz k with hc | hc
-  · exfalso
-    obtain ⟨h1, h2, _, _, _, _, h7, h8⟩ := (FamPitfall.check_iff v d ny nz k).1 hc
-    have : Pitfall.drawable v d = true := by
-      simp only [Pitfall.drawable, decide_eq_true_eq]
-      refine ⟨by omega, by omega, ?_⟩
-      have := Int.emod_two_eq (v * d); omega
+  · have := (pitfall_accepted_is_drawable v d ny nz k hc).2.2
     rw [this] at h; exact Bool.noConfusion h
   · exact hc
+
+example : Pitfall.check 2 2 2 2 2 = .error .valueError ∧ Pitfall.check 4 3 2 2 2 = .ok () := by decide
 
 /-- the template `TseitinFormula(g, [True])` (odd total charge) is unsatisfiable — double counting -/
 theorem tseitin_template_unsat (g : SimpleG) (hg : GraphOK g) (hn : 1 ≤ g.n) (β : Assign) :
